@@ -5,6 +5,7 @@ package main
 import (
 	"fmt"
 	"go/types"
+	"os"
 	"runtime/debug"
 	"sort"
 	"strings"
@@ -66,6 +67,14 @@ func VerifyFunc(P *Program, c *Contract, maxPaths int) (res *FuncResult) {
 	touched := map[string]bool{}
 	for k := range touchedKeys {
 		touched[k] = true
+	}
+	if os.Getenv("GVC_KEYS") != "" {
+		var ks []string
+		for k := range touched {
+			ks = append(ks, k)
+		}
+		sort.Strings(ks)
+		fmt.Printf("  keys of %s: %q\n", c.Key, ks)
 	}
 	if first.fv != nil {
 		for _, o := range first.fv.obls {
@@ -196,7 +205,11 @@ func verifyFuncPass(P *Program, c *Contract, maxPaths int, touched map[string]bo
 		}
 		fv.applyGhostDefs(post, o.st, c.GhostDefs)
 		for i, e := range c.Ensures {
+			n0 := len(fv.obls)
 			fv.oblige(o.st, fmt.Sprintf("ensures #%d", i+1), post.evalBool(e), fn.Pos())
+			for _, ob := range fv.obls[n0:] {
+				ob.Props = e.Props
+			}
 		}
 	}
 	return
